@@ -19,6 +19,8 @@ package syncx_test
 import (
 	"errors"
 	"fmt"
+	"hash/crc32"
+	"hash/fnv"
 	"math"
 	"runtime"
 	"sort"
@@ -31,6 +33,7 @@ import (
 
 	"github.com/anishathalye/porcupine"
 	"github.com/gotid/god/lib/errorx"
+	"github.com/gotid/god/lib/hash"
 	"pgregory.net/rapid"
 	"verif.local/kit"
 )
@@ -203,17 +206,75 @@ func c18BuildKeyNames(family int) []string {
 		return []string{"a" + long(1<<20, ""), "b" + long(1<<20, ""), long(1<<20, "") + "a"}
 	case 9:
 		return []string{"k\x000", "k\x001", "k"}
+	case 10, 11, 12, 13, 14, 15:
+		// keys 0 and 1 collide under one of the repository's own hash functions
+		// (or a narrow index derived from it); they are still different keys
+		p := c18Collisions[family-10]
+		return []string{p[0], p[1], "k2"}
 	}
 	return []string{"k0", "k1", "k2"}
 }
 
-const c18KeyFamilies = 10
+const c18KeyFamilies = 16
+
+// c18Collisions: pairs of DIFFERENT keys with equal hashes.
+//
+//	0, 1  murmur3-64 = lib/hash.Hash, the full 64 bits (constants, verified in init)
+//	2     crc32.ChecksumIEEE
+//	3     fnv-1a 32
+//	4     low 32 bits of lib/hash.Hash
+//	5     low 16 bits of lib/hash.Hash
+//
+// 2..5 are found once per process by a birthday search over short keys.
+var c18Collisions = [6][2]string{
+	{"cache:user:100016mfbq5izke6w4b75", "cache:user:20002w1C9SrxFsBNdGuxU"},
+	{"app-b1c01c1ebbabfeae", "app-635f1dbb22d2ef8d"},
+}
+
+func init() {
+	for i := 0; i < 2; i++ {
+		a, b := c18Collisions[i][0], c18Collisions[i][1]
+		if a == b || hash.Hash([]byte(a)) != hash.Hash([]byte(b)) {
+			panic(fmt.Sprintf("c18: the murmur3-64 pair %q / %q does not collide under lib/hash.Hash any more (%x vs %x): the key-collision family is void", a, b, hash.Hash([]byte(a)), hash.Hash([]byte(b))))
+		}
+	}
+	fns := []func(string) uint64{
+		func(s string) uint64 { return uint64(crc32.ChecksumIEEE([]byte(s))) },
+		func(s string) uint64 { h := fnv.New32a(); _, _ = h.Write([]byte(s)); return uint64(h.Sum32()) },
+		func(s string) uint64 { return hash.Hash([]byte(s)) & 0xffffffff },
+		func(s string) uint64 { return hash.Hash([]byte(s)) & 0xffff },
+	}
+	for fi, f := range fns {
+		seen := make(map[uint64]string, 1<<18)
+		found := false
+		for n := 0; n < 4000000 && !found; n++ {
+			// short, random-looking keys (CRC is linear: keys that differ in a few
+			// digits only cannot collide)
+			z := uint64(n+1) * 0x9e3779b97f4a7c15
+			z = (z ^ (z >> 30)) * 0xbf58476d1ce4e5b9
+			z = (z ^ (z >> 27)) * 0x94d049bb133111eb
+			k := "user:" + strconv.FormatUint(z^(z>>31), 36)
+			h := f(k)
+			if prev, ok := seen[h]; ok && prev != k {
+				c18Collisions[2+fi] = [2]string{prev, k}
+				found = true
+			}
+			seen[h] = k
+		}
+		if !found {
+			panic(fmt.Sprintf("c18: no colliding key pair found for hash function %d", fi))
+		}
+	}
+}
 
 func c18DrawKeyFamily(rt *rapid.T) int {
-	if rapid.IntRange(0, 2).Draw(rt, "plainKeys") != 0 {
-		return 0
+	switch rapid.IntRange(0, 5).Draw(rt, "keyClass") {
+	case 0:
+		return rapid.IntRange(1, 9).Draw(rt, "keyFamily")
+	case 1:
+		return rapid.IntRange(10, c18KeyFamilies-1).Draw(rt, "collidingFamily")
 	}
-	return rapid.IntRange(1, c18KeyFamilies-1).Draw(rt, "keyFamily")
+	return 0
 }
 
 // c18Try runs f and reports whether it panicked; the panic is recovered here,
@@ -553,7 +614,9 @@ func c18CaseClasses(v *c18V, c c18Case) {
 	}
 	v.class(fmt.Sprintf("goroutines=%d", len(c.Gs)))
 	c18InstanceClasses(v, c)
-	if c.KA != 0 {
+	if c.KA >= 10 {
+		v.class(fmt.Sprintf("keys-colliding-under-%s", []string{"murmur3-64(a)", "murmur3-64(b)", "crc32", "fnv1a-32", "murmur3-low32", "murmur3-low16"}[c.KA-10]))
+	} else if c.KA != 0 {
 		v.class(fmt.Sprintf("key-alphabet-family=%d", c.KA))
 	}
 	for _, g := range c.Gs {
